@@ -76,14 +76,33 @@ def pack_bits(Z):
 def keccak(b,r,M,L,d,nist=True):
     bits=(bits_nist if nist else bits_native)(M,L)
     return pack_bits(sponge_bits(b,r,bits,d))
-if __name__=='__main__':
+class Duplex(object):
+    """reference duplex object: each call absorbs pad10*1(bits) (one block) and returns the first outlen bits"""
+    def __init__(self,b,r):
+        self.b,self.r,self.w=b,r,b//25
+        self.S=[0]*25
+    def __call__(self,bits,outlen):
+        r,w=self.r,self.w
+        P=list(bits)+[1]
+        P+=[0]*((-len(P)-1)%r)+[1]
+        assert len(P)==r
+        for i,bit in enumerate(P):
+            if bit: self.S[i//w]^=1<<(i%w)
+        self.S=keccak_f(self.S,w)
+        return pack_bits([(self.S[i//w]>>(i%w))&1 for i in range(outlen)])
+def selftest():
     import hashlib
-    for n in range(0,300,7):
-        m=bytes((i*7+1)&255 for i in range(n))
-        bits=bits_native(m,8*n)
-        assert pack_bits(sponge_bits(1600,1088,bits+[0,1],256))==hashlib.sha3_256(m).digest()
-        assert pack_bits(sponge_bits(1600,1344,bits+[1,1,1,1],800))==hashlib.shake_128(m).digest(100)
-    print('keccak ref ok vs hashlib')
-    assert round_constants(64,24)[:3]==[1,0x8082,0x800000000000808A]
-    assert keccak(200,40,bytes.fromhex('F219BD629820'),43,160).hex().upper()=='C8F9476DBF0B0FE01F80629FD5689097AAAC6732'
-    print('b=200 KAT ok')
+    n=0
+    for ln in list(range(0,300,7))+[135,136,137,167,168,169,271,272,273]:
+        m=bytes((i*7+1)&255 for i in range(ln))
+        bits=bits_native(m,8*ln)
+        for name,r,d in (('sha3_224',1152,224),('sha3_256',1088,256),('sha3_384',832,384),('sha3_512',576,512)):
+            if pack_bits(sponge_bits(1600,r,bits+[0,1],d))!=hashlib.new(name,m).digest(): raise AssertionError(('keccak ref vs hashlib',name,ln))
+            n+=1
+        if pack_bits(sponge_bits(1600,1344,bits+[1,1,1,1],8*200))!=hashlib.shake_128(m).digest(200): raise AssertionError(('shake128',ln))
+        if pack_bits(sponge_bits(1600,1088,bits+[1,1,1,1],8*300))!=hashlib.shake_256(m).digest(300): raise AssertionError(('shake256',ln))
+        n+=2
+    if round_constants(64,24)[:3]!=[1,0x8082,0x800000000000808A]: raise AssertionError('round constants')
+    # KeccakTools / ShortMsgKAT style vectors: b=200 r=40 Len=43; Keccak[r=1024,c=576] Len=5 (NIST bit order)
+    if keccak(200,40,bytes.fromhex('F219BD629820'),43,160).hex().upper()!='C8F9476DBF0B0FE01F80629FD5689097AAAC6732': raise AssertionError('b=200 KAT')
+    return n+2
